@@ -90,7 +90,7 @@ def contract_codes(case):
     mod = genetic_code if impl == "old" else new_genetic_code
     pre = f"codes/{impl}"
     try:
-        ids = sorted(int(r[0]) for r in mod.available_codes().tolist())
+        ids = sorted(int(i) for i in mod.available_codes().columns["Code ID"])
     except Exception as e:
         return ("fail", f"{pre}/available_codes/raises", f"{case}: {_exc(e)}")
     if ids != CODE_IDS:
@@ -208,7 +208,7 @@ def contract_frames(case):
                         continue
                     return ("fail", f"{pre}/raises-ValueError", f"code {gid} {s!r} start={f}: {_exc(e)}; expected {exp!r}")
                 if got != exp:
-                    cls = _frame_class(got, s, gid, f, mt) if minus else ("symbol-X" if "X" in str(got) else "other")
+                    cls = "symbol-X" if "X" in str(got) else (_frame_class(got, s, gid, f, mt) if minus else "other")
                     return ("fail", f"{pre}/{cls}",
                             f"code {gid}: translate({s!r}, {f}{', rc=True' if minus else ''}) = {got!r}; spec "
                             f"{'translate(rc(s))' if minus else 'codons'} from {f} = {exp!r}")
@@ -275,10 +275,10 @@ def seq_class(s, gid):
     cod = S.translate_spec(s, gid)
     nong = [i for i, a in enumerate(cod) if a != "-"]
     tags = []
-    if not s:
-        tags.append("empty")
+    if not s.replace("-", ""):
+        tags.append("no-bases")
     elif not nong:
-        tags.append("no-complete-codon")
+        tags.append("shorter-than-a-codon")
     else:
         last = nong[-1]
         internal = any(cod[i] == "*" for i in nong[:-1])
@@ -544,7 +544,7 @@ def contract_agree(case):
     def describe(v):
         if v == fulls:
             return "every-stop-kept"
-        if all(a[1] == (b[1][:-1] if b[1].endswith("*") else b[1]) for a, b in zip(v, fulls)):
+        if all(a[1] == (b[1][:-1].rstrip("-") if b[1].endswith("*") else b[1]) for a, b in zip(v, fulls)):
             return "terminal-stop-trimmed"
         return "other"
     parts = sorted(f"{describe(v)}:[{','.join(sorted(es))}]" for v, es in groups.items())
